@@ -155,6 +155,8 @@ fn build_base(rng: &mut Rng, idx: u64) -> Result<Base, String> {
     params.reopen_weight = if idx % 2 == 1 { 3 } else { 0 };
     params.final_reopen_without_reuse = idx % 2 == 1;
     params.big_values = false;
+    // (data blocks that hold a single entry: a value a little longer than a block)
+    params.values_longer_than_a_block = true;
     params.family = if idx % 2 == 0 { KeyFamily::Ascii } else { KeyFamily::Binary };
     params.pool = 30;
     params.cfg = Config { memtable: *rng.pick(&[700usize, 1200]), file: 1024, block: *rng.pick(&[128usize, 512]), reuse: true };
@@ -887,6 +889,58 @@ fn redirect_index_handle_to_first_data_block(table: &[u8]) -> Option<Vec<u8>> {
     Some(out)
 }
 
+/// The handles of the data blocks, read from the index block the footer names.
+fn data_block_handles(table: &[u8]) -> Vec<(u64, u64)> {
+    let mut out = vec![];
+    let len = table.len();
+    if len < 48 {
+        return out;
+    }
+    let footer = &table[len - 48..];
+    let mut at = 0usize;
+    let (Some(_), Some(_)) = (get_varint(footer, &mut at), get_varint(footer, &mut at)) else { return out };
+    let (Some(idx_off), Some(idx_size)) = (get_varint(footer, &mut at), get_varint(footer, &mut at)) else { return out };
+    let Some(block) = table.get(idx_off as usize..(idx_off + idx_size) as usize) else { return out };
+    if block.len() < 4 {
+        return out;
+    }
+    let restarts = u32::from_le_bytes([block[block.len() - 4], block[block.len() - 3], block[block.len() - 2], block[block.len() - 1]]) as usize;
+    let Some(end) = block.len().checked_sub(4 * (1 + restarts)) else { return out };
+    let mut p = 0usize;
+    while p < end && out.len() < 64 {
+        let (Some(_shared), Some(non_shared), Some(value_len)) = (get_varint(block, &mut p), get_varint(block, &mut p), get_varint(block, &mut p)) else { break };
+        p += non_shared as usize;
+        let Some(value) = block.get(p..p + value_len as usize) else { break };
+        p += value_len as usize;
+        let mut q = 0usize;
+        if let (Some(o), Some(s)) = (get_varint(value, &mut q), get_varint(value, &mut q)) {
+            out.push((o, s));
+        }
+    }
+    out
+}
+
+/// The table with its footer's index handle set to `target`.
+fn with_index_handle(table: &[u8], target: (u64, u64)) -> Option<Vec<u8>> {
+    let len = table.len();
+    let footer = table.get(len.checked_sub(48)?..)?;
+    let mut at = 0usize;
+    let (meta_off, meta_size) = (get_varint(footer, &mut at)?, get_varint(footer, &mut at)?);
+    let mut new_footer = vec![];
+    put_varint(&mut new_footer, meta_off);
+    put_varint(&mut new_footer, meta_size);
+    put_varint(&mut new_footer, target.0);
+    put_varint(&mut new_footer, target.1);
+    if new_footer.len() > 40 {
+        return None;
+    }
+    new_footer.resize(40, 0);
+    new_footer.extend_from_slice(&footer[40..]);
+    let mut out = table[..len - 48].to_vec();
+    out.extend_from_slice(&new_footer);
+    Some(out)
+}
+
 fn redirect_index_handle(table: &[u8], to_metaindex: bool) -> Option<Vec<u8>> {
     let len = table.len();
     if len < 48 {
@@ -1092,6 +1146,13 @@ pub fn run_case(tier: &str, seed: u64, idx: u64) -> CaseOut {
         if class == PathClass::Table && (slice == 5 || thorough) {
             if let Some(redirected) = redirect_index_handle_to_first_data_block(&base.image.files[path]) {
                 mutations.push((len - 48, "index handle redirected to the first data block".to_string(), Box::new(move |b: &mut Vec<u8>| *b = redirected.clone())));
+            }
+            // ... and to every other data block (among them blocks that hold a single long value,
+            // whose first bytes read as a block handle)
+            for (n, handle) in data_block_handles(&base.image.files[path]).into_iter().enumerate().skip(1).take(12) {
+                if let Some(redirected) = with_index_handle(&base.image.files[path], handle) {
+                    mutations.push((len - 48, format!("index handle redirected to data block {n}"), Box::new(move |b: &mut Vec<u8>| *b = redirected.clone())));
+                }
             }
             for to_metaindex in [false, true] {
                 if let Some(redirected) = redirect_index_handle(&base.image.files[path], to_metaindex) {
